@@ -177,7 +177,7 @@ fn remote_config(cores: &[u64], host_id: u64, base_port: u16) -> RuntimeConfig {
 
 pub fn generate(opts: &Opts, sink: &mut CaseSink) {
     let mut rng = Rng::new(opts.seed);
-    let n = if opts.thorough { 3000 } else { 400 };
+    let n = (if opts.thorough { 3000 } else { 400 }) / opts.scale;
     let base_port = 21000u16;
     for i in 0..n {
         let plan = Plan {
